@@ -220,6 +220,21 @@ def _run(ctx, make_solver, det, t_first_bad, step, cont, nrows_full, injected_si
         # cannot show the warning. Real failures of this path are covered by the natural provocation cases.
         ctx.cls("outcome:not_judged:warning_delegated_to_fsolve")
         return "not_judged"
+    q_ret = np.asarray(getattr(sol, "q", np.zeros((0, 0))), dtype=float)
+    if not msgs and q_ret.size and not np.all(np.isfinite(q_ret)):
+        # whatever the helper reported: a state that is not a number is not a converged step, and nobody said so
+        bad_rows = np.where(~np.all(np.isfinite(q_ret.reshape(len(q_ret), -1)), axis=1))[0]
+        ctx.cls("outcome:returned_non_finite_rows_silently")
+        ctx.violation(f"{det.get('solver')}.solve", "a nonlinear solve / fixed-point loop failed and the solver returned without any warning",
+                      {**det, "non_finite_rows": bad_rows[:6], "t_of_first_non_finite_row": float(t[bad_rows[0]]) if len(t) > bad_rows[0] else None})
+        return "silent"
+    if not msgs and det.get("kind") == "natural" and t_first_bad is not None and len(t) and t[-1] >= t_first_bad - 1e-9 * step:
+        # the provocation is one that cannot converge by construction (the load is not a number from t_first_bad on): rows at
+        # or beyond that time were returned and nothing was said - whatever success flags the helpers exchanged
+        ctx.cls("outcome:returned_silently")
+        ctx.violation(f"{det.get('solver')}.solve", "a nonlinear solve / fixed-point loop failed and the solver returned without any warning",
+                      {**det, "first_time_at_which_no_solution_exists": t_first_bad})
+        return "silent"
     if not msgs and det.get("kind") == "natural" and not det.get("failure_observed") and len(t) == nrows_full:
         ctx.cls("outcome:natural_provocation_did_not_fail")
         return "no_failure"
